@@ -691,6 +691,11 @@ package ring
 //@   trusted abstract level: a new polynomial with one row per modulus of the ring's level (rows: see NewPoly#rows)
 //@   ensures len(result.Coeffs) == r.level + 1
 
+//@ afunc Ring.SetCoefficientsBigint
+//@   trusted opaque at the abstract level: writes the residues of the integers into the polynomial (coefficient domain, not Montgomery)
+//@   assigns p1
+//@   ensures dom(p1) == 0 && mexp(p1) == 0
+
 //@ afunc Poly.Zero
 //@   trusted ring-element view: every coefficient is set to 0
 //@   assigns pol
